@@ -13,6 +13,7 @@ import Driver.Handlers.Resolve
 import Driver.Handlers.Warnings
 import Driver.Handlers.Equal
 import Driver.Handlers.Living
+import Driver.Handlers.Pages
 import Driver.Handlers.Html
 import Driver.Handlers.Query
 import Driver.Handlers.MergeGraph
@@ -21,7 +22,7 @@ import Driver.Handlers.Merge
 namespace Driver
 
 def handlers : List (String → List String → Option String) :=
-  [handleDates, handleSimilarity, handleMatch, handleDateParse, handleDecoder, handleDiff, handleResolve, handleWarnings, handleEqual, handleLiving, handleHtml, handleQuery, handleMergeGraph, handleCache, handleMerge]
+  [handleDates, handleSimilarity, handleMatch, handleDateParse, handleDecoder, handleDiff, handleResolve, handleWarnings, handleEqual, handleLiving, handlePages, handleHtml, handleQuery, handleMergeGraph, handleCache, handleMerge]
 
 def respond (line : String) : String :=
   match line.splitOn " " with
